@@ -241,6 +241,18 @@ def fam_trunc_cancel(rng):
             out.append(("single", depth, chain[:5] + [{"op": "truncate", "n": "N1"}] + chain[5:] + [{"op": "truncate", "n": "N1", "cancel": k}]))
             if k % 2 == 1:
                 out.append(("single", depth, side + [{"op": "truncate", "n": "N1", "cancel": k}]))
+
+    return out
+
+
+def fam_trunc_retry(rng):
+    """A cancelled truncation after which the node lives on: the next truncations meet the half-moved vertices."""
+    out = []
+    chain = [G(), P("N1", "t1", 2), P("N1", "t3", 3), P("N1", "t4", 4), P("N1", "t5", 5), P("N1", "t2", 6), P("N1", "t6", 7)]
+    for depth in (1, 2, 3):
+        for k in range(1, 15):
+            out.append(("single", depth, chain + [{"op": "truncate", "n": "N1", "cancel": k, "kind": "cont"}, {"op": "truncate", "n": "N1"},
+                                                  {"op": "balance", "n": "N1", "wl": "A"}, {"op": "truncate", "n": "N1"}]))
     return out
 
 
@@ -266,6 +278,29 @@ def fam_weights(rng):
         # and truncation afterwards
         out.append(("single", 2, pre + [D("N1", 4), P("N1", "t4", 6), P("N1", "t6", 7), {"op": "truncate", "n": "N1"},
                                         {"op": "balance", "n": "N1", "wl": "A"}]))
+    return out
+
+
+def fam_cancel(rng):
+    """The caller of a proposal / the peer of a delivery goes away while the node validates tips: the context is
+    cancelled at its k-th inspection.  On an overdraft tip (must be dropped either way, never built upon), on valid
+    tips (the code drops them - modelled as it is), with one and with two tips."""
+    out = []
+    for k in range(1, 7):
+        base = [G(), P("N1", "t1", 2), P("N1", "t3", 3)]
+        over = base + [{"op": "craft", "s": "N2", "t": "t6", "l": 3, "r": 3, "w": 3, "id": 4}, D("N1", 4)]
+        child = {"op": "craft", "s": "N2", "t": "t5", "l": 4, "r": 4, "w": 4, "id": 5}
+        # a gossiped child of an overdraft tip, its delivery cancelled
+        out.append(("single", 2, over + [child, dict(D("N1", 5), cancel=k), P("N1", "t2", 6), P("N1", "t4", 7)]))
+        # a proposal cancelled while it validates the overdraft tip / a valid tip
+        out.append(("single", 2, over + [dict(P("N1", "t2", 5), cancel=k), P("N1", "t2", 5), P("N1", "t4", 6)]))
+        out.append(("single", 2, base + [dict(P("N1", "t2", 4), cancel=k), P("N1", "t2", 4), P("N1", "t4", 5)]))
+        # a gossiped child of a valid tip, its delivery cancelled; two tips
+        valid = base + [{"op": "craft", "s": "N2", "t": "t5", "l": 3, "r": 3, "w": 3, "id": 4},
+                        {"op": "craft", "s": "N2", "t": "t2", "l": 2, "r": 3, "w": 3, "id": 5}]
+        out.append(("single", 2, valid + [dict(D("N1", 4), cancel=k), D("N1", 4), P("N1", "t4", 6)]))
+        out.append(("single", 2, valid + [D("N1", 5), {"op": "craft", "s": "N2", "t": "t4", "l": 3, "r": 5, "w": 4, "id": 6},
+                                          dict(D("N1", 6), cancel=k), D("N1", 6), dict(P("N1", "t5", 7), cancel=k), P("N1", "t5", 7)]))
     return out
 
 
@@ -517,7 +552,7 @@ ALL_EVENTS = ["History", "BalanceRaced", "Reset", "Genesis", "ProposePre", "Prop
 PROPS = {
     "C01": dict(strict=["ProposeCommit", "DeliverCommit", "Truncate", "Wedged"],
                 inv=["TypeOK"], prop=["C01_NoOverdraftConfirmed", "C01_OnlyTipsDropped", "C03_Reproposable"],
-                gens=[("single", 1.0)], fams=["truncation", "concurrent", "weights"], mc="single"),
+                gens=[("single", 1.0)], fams=["truncation", "concurrent", "weights", "cancel"], mc="single"),
     "C02": dict(strict=["Wedged"], inv=["C02_ModuloF10"], prop=[],
                 gens=[("two", 0.5), ("twosingle", 0.3), ("drain", 0.2)], fams=["doublespend", "truncation"], mc="two"),
     "C03": dict(strict=["ProposePre", "ProposeCommit", "DeliverPre", "DeliverCommit", "TickPop", "Wedged"],
@@ -526,8 +561,8 @@ PROPS = {
     "C06": dict(strict=["Balance", "Wedged"], inv=[], prop=[],
                 gens=[("single", 0.4), ("drain", 0.3), ("twosingle", 0.3)], fams=["truncation", "load"], mc="single"),
     "C07": dict(strict=["Truncate", "TruncateCancelled", "ReadTrx", "ReadVertex", "ProposePre", "DeliverPre", "Balance", "Wedged"],
-                inv=["ReadsOK", "C03_UniqueTrx"], prop=["C07_Transparent"],
-                gens=[("single", 0.5), ("drain", 0.5)], fams=["truncation"], mc="single"),
+                inv=["ReadsOK", "C03_UniqueTrx"], prop=["C07_T"],
+                gens=[("single", 0.5), ("drain", 0.5)], fams=["truncation", "trunc_retry"], mc="single"),
     "C09": dict(strict=["ProposeCommit", "Genesis", "Wedged"],
                 inv=["C09_WellFormed", "SelfAuthentic", "ViewConsistent", "TypeOK"], prop=["C09_LocalCreate"],
                 gens=[("single", 0.6), ("twosingle", 0.4)], fams=["truncation", "concurrent", "load"], mc="single"),
@@ -543,6 +578,14 @@ PROPS = {
                 gens=[("twosingle", 1.0)], fams=["load"], mc="two"),
 }
 
+# Every event that changes a book is judged for conformance in the check of every ledger property: the recorded state
+# is adopted after each event, so a state change that the specification does not allow and that is not judged would
+# silently become the reference for everything evaluated afterwards (a wrong checkpoint written by a truncation would be
+# the "checkpointed funds" the balance reads of C06 are compared with).
+CORE_STRICT = ["Genesis", "TickPop", "ProposeCommit", "DeliverCommit", "Truncate", "TruncateCancelled", "Load", "Trust", "Untrust", "Wedged"]
+for _p in PROPS.values():
+    _p["strict"] = sorted(set(_p["strict"]) | set(CORE_STRICT))
+
 FAMS = {
     "truncation": lambda rng, tier: fam_truncation(rng) + fam_drain(rng) + fam_stale(rng) + fam_trunc_race(rng) + fam_trunc_cancel(rng),
     "concurrent": lambda rng, tier: fam_concurrent(rng),
@@ -553,6 +596,8 @@ FAMS = {
     "rules": lambda rng, tier: fam_rules(rng),
     "canon": lambda rng, tier: fam_canon(rng),
     "weights": lambda rng, tier: fam_weights(rng),
+    "cancel": lambda rng, tier: fam_cancel(rng),
+    "trunc_retry": lambda rng, tier: fam_trunc_retry(rng),
 }
 
 MC_CONFIGS = {
